@@ -33,24 +33,19 @@ func checkC13(c *Ctx) {
 	// ---- (1) fresh task
 	callerCtx := refRun.Params[1]
 	var newTask *ssa.Call
-	var initCall, runCall *ssa.Call
 	allInstrs(refRun, func(in ssa.Instruction) {
-		if call, ok := in.(*ssa.Call); ok {
-			switch call.Call.StaticCallee() {
-			case getCtx:
-				newTask = call
-			case initCtx:
-				initCall = call
-			case runStmts:
-				runCall = call
-			}
+		if call, ok := in.(*ssa.Call); ok && call.Call.StaticCallee() == getCtx {
+			newTask = call
 		}
 	})
+	// InitCtx and RunStmts may be called by RefRun itself or by a helper it hands the new task to
+	initRC, runRC := findCallThrough(refRun, initCtx), findCallThrough(refRun, runStmts)
 	r.Ob("FRESH-TASK", "RefRun takes a task from GetContext", t.Pos(refRun.Pos()), newTask != nil, "the callee must not run on the caller's task")
-	okInit := initCall != nil && newTask != nil && initCall.Call.Args[0] == ssa.Value(newTask) &&
-		path(initCall.Call.Args[1]) == callerCtx.Name()+".input" && initCall.Call.Args[2] == ssa.Value(refRun.Params[0]) && path(initCall.Call.Args[3]) == callerCtx.Name()+".signal"
+	okInit := initRC != nil && newTask != nil && initRC.Arg(0) == ssa.Value(newTask) &&
+		path(initRC.Arg(1)) == callerCtx.Name()+".input" && initRC.Arg(2) == ssa.Value(refRun.Params[0]) && path(initRC.Arg(3)) == callerCtx.Name()+".signal"
 	r.Ob("FRESH-TASK", "RefRun initialises the new task with (caller.input, callee script, caller.signal)", t.Pos(refRun.Pos()), okInit, "the point and the signal are shared, nothing else")
-	okRun := runCall != nil && newTask != nil && (runCall.Call.Args[0] == ssa.Value(newTask) || (initCall != nil && runCall.Call.Args[0] == ssa.Value(initCall))) && strings.HasSuffix(path(runCall.Call.Args[1]), ".Ast") && rootOf(runCall.Call.Args[1]) == ssa.Value(refRun.Params[0])
+	okRun := runRC != nil && newTask != nil && (runRC.Arg(0) == ssa.Value(newTask) || (initRC != nil && runRC.Call.Call.Args[0] == ssa.Value(initRC.Call))) &&
+		strings.HasSuffix(path(runRC.Call.Call.Args[1]), ".Ast") && runRC.Root(1) == ssa.Value(refRun.Params[0])
 	r.Ob("FRESH-TASK", "RefRun runs the callee's statements on the new task", t.Pos(refRun.Pos()), okRun, "RunStmts(newtask, s.Ast)")
 	// uses of the caller's task: only loads of input and signal
 	var other []string
@@ -75,14 +70,18 @@ func checkC13(c *Ctx) {
 	r.Ob("FRESH-TASK", "RefRun touches nothing of the caller's task but input and signal", t.Pos(refRun.Pos()), len(other) == 0, fmt.Sprintf("other uses: %v (variables, registers, flags and scopes of the caller must stay invisible to the callee, and vice versa)", other))
 	// the result is RunStmts' result
 	okRet := false
+	var runRes ssa.Value
+	if runRC != nil {
+		runRes = runRC.Result()
+	}
 	allInstrs(refRun, func(in ssa.Instruction) {
-		if ret, ok := in.(*ssa.Return); ok && runCall != nil {
-			if ret.Results[0] == ssa.Value(runCall) {
+		if ret, ok := in.(*ssa.Return); ok && runRes != nil && ret.Block() != refRun.Recover {
+			if ret.Results[0] == runRes {
 				okRet = true
 			}
 			if u, ok := ret.Results[0].(*ssa.UnOp); ok {
 				if a, ok := u.X.(*ssa.Alloc); ok {
-					if s := lastStoreBefore(a, u); s != nil && s.Val == ssa.Value(runCall) {
+					if s := lastStoreBefore(a, u); s != nil && s.Val == runRes {
 						okRet = true
 					}
 				}
@@ -96,16 +95,13 @@ func checkC13(c *Ctx) {
 		if s, ok := in.(*ssa.Store); ok {
 			if fa, ok := s.Addr.(*ssa.FieldAddr); ok {
 				switch {
-				case fieldName(fa) == "stackHeader" || fieldName(fa) == "stackCur":
-					if a, ok := rootOf(s.Val).(*ssa.Alloc); ok && a.Heap && namedOf(a.Type()) == "runtime.Stack" {
-						okScope = true
-					}
 				case fieldName(fa) == "Before":
 					linked = true
 				}
 			}
 		}
 	})
+	okScope = freshRootFrame(getCtx)
 	r.Ob("FRESH-TASK", "GetContext gives the task a new root scope with no parent", t.Pos(getCtx.Pos()), okScope && !linked, "a scope chain that reached another task's frames would leak variables")
 
 	// ---- (2) Use
